@@ -7,3 +7,7 @@ import RdfModel.Proofs.C17Main
 import RdfModel.Proofs.C17Dataset
 import RdfModel.Proofs.C17Cycle
 import RdfModel.Proofs.C17List
+import RdfModel.Proofs.C17V
+import RdfModel.Proofs.C17VRoots
+import RdfModel.Proofs.C17VMain
+import RdfModel.Proofs.C17VDataset
